@@ -377,16 +377,7 @@ Qed.
 Lemma scan_dq_body : forall b rest, dq_body b = true -> scan_dq (b ++ 34%N :: rest) = Some (b, rest).
 Proof. intros b rest H. exact (scan_dq_body_n (length b) b (le_n _) rest H). Qed.
 
-Lemma unq_sq_plain : forall s, sq_plain s = true -> unq false 0 s = s.
-Proof.
-  induction s as [|c s IH]; intros H; [reflexivity|].
-  cbn [sq_plain] in H. apply andb_prop in H. destruct H as [H1 H2]. cbn [unq].
-  destruct (c =? 92)%N.
-  - destruct (unq_esc false s) as [[o k]|]; [discriminate|]. rewrite (IH H2). reflexivity.
-  - rewrite (IH H2). reflexivity.
-Qed.
-
-Lemma unq_esc_dq : forall s, unq true 0 (esc_dq s) = s.
+Lemma unq_esc_dq : forall s, unq 0 (esc_dq s) = s.
 Proof.
   induction s as [|c s IH]; [reflexivity|].
   cbn [esc_dq]. unfold esc_dq_char.
@@ -991,8 +982,7 @@ Proof.
   - destruct d; cbn [render_sx render_lit].
     + pose proof (RDq [] (esc_dq s) all_ws_nil (dq_body_esc s)) as R.
       rewrite unq_esc_dq in R. exact R.
-    + cbn [wf_sx] in W. apply andb_prop in W. destruct W as [W1 W2].
-      pose proof (RSq [] s all_ws_nil W1) as R. rewrite (unq_sq_plain s W2) in R. exact R.
+    + cbn [wf_sx] in W. exact (RSq [] s all_ws_nil W).
   - cbn [wf_sx] in W. apply andb_prop in W. destruct W as [Wn Wa].
     rewrite render_sx_fn.
     pose proof (fun sargs Ha => RFn [] name [] args sargs [] all_ws_nil Wn all_ws_nil Ha all_ws_nil) as R.
@@ -1187,4 +1177,27 @@ Lemma cmp_tighter_than_and_proof : forall op a x y sa sx sy w1 w2 w3,
 Proof.
   intros op a x y sa sx sy w1 w2 w3 Hc. pose proof (cmp_lvl op Hc).
   apply (tighter_right_proof op BAnd a x y sa sx sy w1 w2 w3). simpl. lia.
+Qed.
+
+(* single quoted literals are taken verbatim *)
+Lemma single_quoted_verbatim_proof : forall s, sq_body s = true ->
+  parse_if (39%N :: s ++ [39%N]) = Some (IStr (SLit s false)).
+Proof.
+  intros s H. rewrite <- (app_nil_r (39%N :: s ++ [39%N])).
+  apply (rend_parse_if_proof (AStr (SLit s false))); [|apply all_ws_nil|reflexivity].
+  apply R_str. exact (RSq [] s all_ws_nil H).
+Qed.
+
+Lemma sq_body_notin : forall s, ~ In 39%N s -> ~ In 10%N s -> ~ In 13%N s -> sq_body s = true.
+Proof.
+  intros s H1 H2 H3. unfold sq_body. apply forallb_forall. intros c Hc.
+  apply negb_true_iff. repeat rewrite orb_false_iff. repeat rewrite N.eqb_neq.
+  repeat split; intros E; subst c; contradiction.
+Qed.
+
+Lemma single_quoted_literal_verbatim_proof : forall s,
+  ~ In 39%N s -> ~ In 10%N s -> ~ In 13%N s ->
+  parse_if (39%N :: s ++ [39%N]) = Some (IStr (SLit s false)).
+Proof.
+  intros s H1 H2 H3. apply single_quoted_verbatim_proof. apply sq_body_notin; assumption.
 Qed.
